@@ -205,6 +205,16 @@ def run_proofs(report, prop, modules, timeout_ms=None):
             # unchanged tree there is none; if one appeared there, the contract or a model behind the proofs would be wrong.)
             report.violation(f"runtime contract failure in {f['function']}: {f['kind']} clause '{f['clause'][:160]}' is false for the call {f['call'][:300]}",
                              dict(f, tier="runtime contract monitor"))
+    if not rebase and any(m == "vf.contracts.lemmas_c" for m, _ in modules) and os.environ.get("VERIF_NO_MONITOR") != "1":
+        # the property lemmas are ordinary Python: run their harnesses on generated inputs and evaluate their postconditions natively
+        try:
+            from .rtc import lemma_native
+            ne, nc, nf = lemma_native.run(common.seed(), 8 if tier_name == "quick" else 60)
+            report.coverage["lemmas_executed_natively"] = {"executions": ne, "clauses_checked": nc, "failures": len(nf)}
+            for f in nf[:5]:
+                report.violation(f"property lemma fails on real objects: {f[:400]}", {"lemma_failure": f, "tier": "native lemma run"})
+        except Exception as e:                                  # noqa: BLE001
+            report.failures.append(f"native lemma run crashed: {type(e).__name__}: {e}"[:300])
     assumed = []
     mod_assumptions = []
     for mod, fns in modules:
